@@ -314,25 +314,33 @@ Fixpoint assoc_list (pairs : list (str * expr)) : expr :=
   | (n, e) :: rest => EBin (EBin (EDes (DLast0 n)) (s " => ") e) (s ", ") (assoc_list rest)
   end.
 
+(* the segments of the statements that are written as segments *)
+Definition stmt_segs (st : stmt) : list seg :=
+  match st with
+  | SForm lab sp f => lab_segs lab ++ segs_of sp f
+  | SCall lab d => lab_segs lab ++ [GWord (s "call"); GExpr (EDes d)]
+  | SIfCall lab sp c d => lab_segs lab ++ [GKw (s "if") sp c; GWord (s "call"); GExpr (EDes d)]
+  | SAssoc sp pairs => [GKw (s "associate") sp (assoc_list pairs)]
+  | _ => []
+  end.
+
 Definition render_stmt (st : stmt) : str :=
   match st with
-  | SForm lab sp f => render_segs (lab_segs lab ++ segs_of sp f)
-  | SCall lab d => render_segs (lab_segs lab ++ [GWord (s "call"); GExpr (EDes d)])
-  | SIfCall lab sp c d => render_segs (lab_segs lab ++ [GKw (s "if") sp c; GWord (s "call"); GExpr (EDes d)])
-  | SAssoc sp pairs => render_segs [GKw (s "associate") sp (assoc_list pairs)]
   | SEndAssoc => s "end associate"
   | SFormat lab sp body => lab ++ s " format" ++ (if sp then [space] else []) ++ lpar :: flat body ++ [rpar]
   | SGoto labels e => s "go to (" ++ join (s ", ") labels ++ s "), " ++ render_e e
+  | _ => render_segs (stmt_segs st)
   end.
 
 Definition wf_lab (lab : option str) : bool := match lab with Some l => label_ok l | None => true end.
 
 Definition wf_stmt (st : stmt) : bool :=
   match st with
-  | SForm lab sp f => wf_lab lab && wf_segs (segs_of sp f)
-  | SCall lab d => wf_lab lab && wf_d d
-  | SIfCall lab _ c d => wf_lab lab && wf_e c && wf_d d
-  | SAssoc _ pairs => negb (is_nil pairs) && forallb (fun p => name_ok (fst p) && wf_e (snd p) && negb (is_nil (render_e (snd p)))) pairs
+  | SForm lab _ _ => wf_lab lab && wf_segs (stmt_segs st)
+  | SCall lab _ => wf_lab lab && wf_segs (stmt_segs st)
+  | SIfCall lab _ _ _ => wf_lab lab && wf_segs (stmt_segs st)
+  | SAssoc _ pairs => negb (is_nil pairs) && wf_segs (stmt_segs st)
+                      && forallb (fun p => negb (is_nil (render_e (snd p)))) pairs
   | SEndAssoc => true
   | SFormat lab _ body => label_ok lab && ptree_ok body && negb (existsb (Ascii.eqb nl) (flat body))
   | SGoto labels e => negb (is_nil labels) && forallb label_ok labels && wf_e e
@@ -366,7 +374,8 @@ Definition ent_den (e : entity) : den :=
   end.
 
 (* Fortran: the first name is looked up in the scope, every further name among the components and
-   bindings of the type of what came before *)
+   bindings of the type of what came before (a type name in front of '%' — not Fortran — is read as
+   a reference into that type's scope) *)
 Fixpoint denote (tb : symtab) (ctx : labels) (ch : chain) : den :=
   match ch with
   | [] => DUnknown
@@ -375,6 +384,7 @@ Fixpoint denote (tb : symtab) (ctx : labels) (ch : chain) : den :=
     match assoc_get x ctx with
     | Some (EVar t _) => match assoc_get t (st_types tb) with Some c => denote tb c rest | None => DUnknown end
     | Some (EFunc _ t _) => match assoc_get t (st_types tb) with Some c => denote tb c rest | None => DUnknown end
+    | Some (EType t) => match assoc_get t (st_types tb) with Some c => denote tb c rest | None => DUnknown end
     | _ => DUnknown
     end
   end.
